@@ -250,6 +250,19 @@ package graphql
 //@   assigns nothing                    // the third-party parser builds a fresh AST from the source text
 //@   ensures err == nil ==> result != nil
 
+// ---- C15 (time): the conflict check merges each selection set at most once per parent - the visit enters the set into its
+// table before it merges or descends, and does so only if it was not there (defect s27: every spread of a shared fragment
+// was merged again, 2^depth times for fragments spreading one another twice).
+//@ func detectConflicts$1$1
+//@   requires selectionSet != nil
+//@   assume deref(merged) != nil && deref(selections) != nil     // both made by the enclosing visit just before this closure
+//@   ghost marked bool
+//@   entry ghost marked = false
+//@   call mapupdate#1 assert !merged[selectionSet]
+//@   call mapupdate#1 ghost marked = true
+//@   call mapupdate#2 assert marked
+//@   call dynamic assert marked
+
 // Parse: every fragment definition gets an entry in the fragment table before any selection set is converted,
 // and converting selection sets (which only writes Fragment objects) leaves the tables themselves alone.
 //@ func Parse
@@ -425,7 +438,14 @@ package graphql
 //@ readonly reactive.RetrySentinelError, context.Canceled
 
 // PrepareQuery walks the (trusted) schema, whose output types are exactly these six kinds; the selection set is untrusted.
+// PrepareQuery is the public entry: it starts the walk with an empty table of checked (type, selection set) pairs.
 //@ func PrepareQuery
+//@   call prepareQuery assert arg1 == typ && arg2 == selectionSet && arg3 != nil && fresh(arg3)
+//@   ensures err == nil && (typ is *Scalar || typ is *Enum) ==> selectionSet == nil
+//@   ensures err == nil && (typ is *Object || typ is *Union) ==> selectionSet != nil
+
+//@ func prepareQuery
+//@   requires prepared != nil
 //@   assume typ is *Scalar || typ is *Enum || typ is *Union || typ is *Object || typ is *List || typ is *NonNull
 // ---- C14 (one level; the recursive calls carry the same contract): an accepted query has no sub-selections on a scalar or
 // enum and has them on an object or union; every selection of an object is __typename (without arguments or
@@ -433,19 +453,26 @@ package graphql
 // non-null wrappers are validated against their element type with the same selection set.
 //@   ensures err == nil && (typ is *Scalar || typ is *Enum) ==> selectionSet == nil
 //@   ensures err == nil && (typ is *Object || typ is *Union) ==> selectionSet != nil
-//@   call PrepareQuery#1 assert arg1 == any(graphqlTyp) && fragment.On == typString && arg2 == fragment.SelectionSet
-//@   call PrepareQuery#2 assert (selection.Name in typ.Fields) && selection.Name != "__typename" && arg1 == typ.Fields[selection.Name].Type && arg2 == selection.SelectionSet
-//@   call PrepareQuery#3 assert arg1 == any(typ) && arg2 == fragment.SelectionSet
-//@   call PrepareQuery#4 assert arg1 == typ.Type && arg2 == selectionSet
-//@   call PrepareQuery#5 assert arg1 == typ.Type && arg2 == selectionSet
+//@   call prepareQuery#1 assert marked && arg1 == any(graphqlTyp) && fragment.On == typString && arg2 == fragment.SelectionSet
+//@   call prepareQuery#2 assert marked && (selection.Name in typ.Fields) && selection.Name != "__typename" && arg1 == typ.Fields[selection.Name].Type && arg2 == selection.SelectionSet
+//@   call prepareQuery#3 assert marked && arg1 == any(typ) && arg2 == fragment.SelectionSet
+//@   call prepareQuery#4 assert arg1 == typ.Type && arg2 == selectionSet
+//@   call prepareQuery#5 assert arg1 == typ.Type && arg2 == selectionSet
 //@   call dynamic assert arg0 == selection.UnparsedArgs
+// C15 (time): a (type, selection set) pair is walked at most once per PrepareQuery - the body of the object and union cases
+// runs only after this very invocation has entered the pair into the table, and a later visit of the pair returns at once.
+// The number of walks is therefore bounded by #types x #selection sets, however often a fragment is spread (defect s26).
+//@   ghost marked bool
+//@   entry ghost marked = false
+//@   call mapupdate assert !(arg1 in prepared)
+//@   call mapupdate ghost marked = true
 // completeness of the object case: no selection and no fragment is skipped - every selection visited so far was either
 // checked as __typename or validated against its field, every fragment visited so far was validated against the object
 //@   ghost vsel map[int]bool
 //@   ghost vfrag map[int]bool
 //@   call isNilArgs#2 ghost vsel[rangeindex+1] = true
-//@   call PrepareQuery#2 ghost vsel[rangeindex+1] = true
-//@   call PrepareQuery#3 ghost vfrag[rangeindex+1] = true
+//@   call prepareQuery#2 ghost vsel[rangeindex+1] = true
+//@   call prepareQuery#3 ghost vfrag[rangeindex+1] = true
 //@   loop 5 invariant forall k int :: 0 <= k && k <= rangeindex ==> vsel[k]
 //@   loop 6 invariant forall k int :: 0 <= k && k <= rangeindex ==> vfrag[k]
 // field.ParseArguments (built by schemabuilder from the argument struct) works on the JSON arguments only
